@@ -66,7 +66,7 @@ impl<'a, W: Write<Error = E>, E: Error> Writer<'a, W, E> {
     }
 
     pub fn writeln_str(&mut self, text: &str) -> Result<(), E> {
-        self.writer.write_str(text)?;
+        self.write_str(text)?;
         self.writer.write_str(codes::CRLF)?;
         self.dirty = false;
         Ok(())
